@@ -306,6 +306,10 @@ class Tifa(TifaCore, ast.NodeVisitor):
         if value:
             self.visit(value)
             # self.assign_target(target, self.visit(value))
+        elif not was_class_attribute:
+            # A bare annotation (``x: int``) outside of a class body declares
+            # a type but binds nothing
+            return
         # Make local variable either way
         self.assign_target(target, annotation_type, store_with_read=was_class_attribute)
 
